@@ -427,7 +427,7 @@ func regFile(core, fed []string) string {
 	if len(core) > 0 {
 		sb.WriteString("\tCore = []uni.Variant{\n")
 		for _, v := range core {
-			fmt.Fprintf(&sb, "\t\t{Name: %q, NewStub: %s.NewStub, Build: %s.Build, Models: %s.Models, Abstract: %s.Abstract, SetBlobHook: %s.SetBlobHook},\n", v, v, v, v, v, v)
+			fmt.Fprintf(&sb, "\t\t{Name: %q, NewStub: %s.NewStub, Build: %s.Build, Models: %s.Models, Abstract: %s.Abstract, SetBlobHook: %s.SetBlobHook, SetMethodHook: %s.SetMethodHook},\n", v, v, v, v, v, v, v)
 		}
 		sb.WriteString("\t}\n")
 	}
